@@ -9,6 +9,7 @@ CONSTANTS
   Grid <- GridM
   NumGadgets = 6
   Tols <- TolsM
+  Bug = "none"
 INVARIANT AccumulationExact
 INVARIANT SameOperator
 INVARIANT RowsSumToOne
